@@ -81,6 +81,7 @@ KNOWN_SIGNATURE = "recv_into-cancelled-in-same-window-as-read-event"
 # ------------------------------------------------------------------------------------------------ labels
 L_RECV, L_INTO, L_DATA, L_EOF, L_LOST, L_CANCEL, L_WAKE, L_TURN = range(8)
 L_RECVPKT = 8        # recorded traces only: recv_packet() / receiver.next() starts
+L_TLSOP = 9          # recorded traces only: a retry loop of the TLS transport starts (handshake / recv / recv_into)
 DISABLED = [-1]
 
 
@@ -584,6 +585,8 @@ def _oracle(inp):
         return blocking_failure(inp)
     if inp[0] == 3:
         return _oracle([2, 2, None, inp[4]])
+    if inp[0] == 6:
+        return _oracle([2, 2, None, inp[3]])
     if inp[0] == 2:
         labels, _obs, _delivered, _returned, packets_ok, results = run_scenario(inp[3])
         if not packets_ok:
@@ -631,6 +634,15 @@ def run_impl(inp):
         if list(params_) != list(inp[2]):
             raise RuntimeError(f"buffer limits changed: {params_} vs {inp[2]}")
         return out
+    if inp[0] == 6:
+        key = "t" + repr(runner_norm(inp[3]))
+        if key in _cache:
+            return _cache.pop(key)[1]
+        _labels, _obs, _d, _r, _ok, results = run_scenario(inp[3])
+        tlabels, answers, nfed = run_scenario.last_tls
+        if [lab[0] for lab in tlabels] != [lab[0] for lab in inp[1]] or runner_norm(answers) != runner_norm(inp[2]):
+            raise RuntimeError("the TLS scenario did not reproduce its recorded trace / SSL answers")
+        return [_tls_results(results), nfed]
     if inp[0] == 3:
         key = "e" + repr(runner_norm(inp[4]))
         if key in _cache:
@@ -1049,7 +1061,7 @@ def run_scenario(scenario):
                     loop.call_at(t0 + _t(time), cb)
 
             sent_plain = bytearray()
-            attempt_task, attempt_k = [None], [0]
+            attempt_task, attempt_k, started = [None], [0], [False]
             if layer in (2, 3):
                 import tlskit
                 from easynetwork.lowlevel.api_async.transports.tls import AsyncTLSStreamTransport
@@ -1062,11 +1074,16 @@ def run_scenario(scenario):
                         loop.call_soon(feeder.push, reply)
                 wire.on_write = on_write
                 lower = _checkpointing_lower(adapter, backend) if layer == 3 else adapter
-                tls = await AsyncTLSStreamTransport.wrap(lower, tlskit.client_ctx(version), server_hostname="localhost",
+                out["ssl_answers"] = ssl_answers = []
+                rec.event([L_TLSOP, 0])
+                tls = await AsyncTLSStreamTransport.wrap(lower, RecSSLContext(tlskit.client_ctx(version), ssl_answers),
+                                                         server_hostname="localhost",
                                                          server_side=False, standard_compatible=False)
                 out["handshake_labels"] = len(rec.labels)
 
                 async def receive(timeout):
+                    started[0] = True
+                    rec.event([L_TLSOP, 64])
                     if consumer == 1 and layer == 3:
                         buf = bytearray(64)
                         n = await tls.recv_into(buf)
@@ -1105,6 +1122,7 @@ def run_scenario(scenario):
                         return [0, await receive(_t(budget))]       # the receiver's own timeout parameter
                     if cancel_kind == 4:
                         # task.cancel() `budget[0]` loop iterations after every read event, whatever the task is doing
+                        started[0] = False
                         task = loop.create_task(receive(None))
                         attempt_task[0], attempt_k[0] = task, budget[0]
                         try:
@@ -1112,7 +1130,7 @@ def run_scenario(scenario):
                         except asyncio.CancelledError:
                             if not task.cancelled():
                                 raise
-                            return [1]
+                            return [1] if started[0] else [5]      # [5]: cancelled before its first step, nothing ran
                         finally:
                             attempt_task[0] = None
                     task = loop.create_task(receive(None))
@@ -1136,7 +1154,8 @@ def run_scenario(scenario):
                 except StopAsyncIteration:
                     return [2]
                 except OSError as exc:          # e.g. ssl.SSLError after ciphertext went missing
-                    return [3, exc.errno or 0]
+                    import ssl as _ssl
+                    return [4] if isinstance(exc, _ssl.SSLError) else [3, exc.errno or 0]
 
             async def consume():
                 if late_feed:
@@ -1156,7 +1175,8 @@ def run_scenario(scenario):
                         results.append([2])
                         break
                     except OSError as exc:
-                        results.append([3, exc.errno or 0])
+                        import ssl as _ssl
+                        results.append([4] if isinstance(exc, _ssl.SSLError) else [3, exc.errno or 0])
                         break
 
             if not late_feed:
@@ -1176,12 +1196,14 @@ def run_scenario(scenario):
     if layer in (2, 3):
         # plaintext comes out in order; all of it when no ciphertext went missing below and no error was reported
         plain = b"".join(got)
-        complete = plain == out["sent_plain"] or rec.returned != rec.delivered or any(r[0] == 3 for r in out["results"])
+        complete = plain == out["sent_plain"] or rec.returned != rec.delivered or any(r[0] in (3, 4) for r in out["results"])
         packets_ok = 1 if out["sent_plain"].startswith(plain) and complete else 0
     else:
         packets_ok = 1 if got == frames_of(rec.returned) else 0
-    labels = [lab for lab in rec.labels if lab[0] != L_RECVPKT]
-    out["elabels"] = [lab for lab in rec.labels if lab[0] not in (L_RECV, L_INTO)]
+    labels = [lab for lab in rec.labels if lab[0] not in (L_RECVPKT, L_TLSOP)]
+    out["elabels"] = [lab for lab in rec.labels if lab[0] not in (L_RECV, L_INTO, L_TLSOP)]
+    run_scenario.last_tls = ([lab for lab in rec.labels if lab[0] not in (L_RECV, L_INTO, L_RECVPKT)],
+                             out.get("ssl_answers", []), len(rec.returned))
     run_scenario.last_elabels = out["elabels"]
     return labels, rec.obs, bytes(rec.delivered), bytes(rec.returned), packets_ok, out["results"]
 
@@ -1263,6 +1285,55 @@ def _checkpointing_lower(adapter, backend):
     return CheckpointingTransport()
 
 
+class RecSSLContext:
+    """stands for the SSLContext given to AsyncTLSStreamTransport.wrap(): the SSL object it creates logs what it answers"""
+
+    def __init__(self, real, log):
+        self.real, self.log = real, log
+
+    def wrap_bio(self, *args, **kwargs):
+        return RecSSLObject(self.real.wrap_bio(*args, **kwargs), self.log)
+
+
+class RecSSLObject:
+    def __init__(self, real, log):
+        self._real, self._log = real, log
+
+    def __getattr__(self, name):
+        return getattr(self._real, name)
+
+    def _answer(self, fn, *args, buffer=None):
+        import ssl
+        from easynetwork.lowlevel import _utils
+        try:
+            res = fn(*args)
+        except ssl.SSLWantReadError:
+            self._log.append([1])
+            raise
+        except ssl.SSLWantWriteError:
+            raise
+        except ssl.SSLZeroReturnError:
+            self._log.append([2])
+            raise
+        except ssl.SSLError as exc:
+            self._log.append([2] if _utils.is_ssl_eof_error(exc) else [3])
+            raise
+        if buffer is not None:
+            with memoryview(buffer) as view:
+                self._log.append([0, bytes(view.cast("B")[:res])])
+        else:
+            self._log.append([0, bytes(res) if isinstance(res, (bytes, bytearray)) else b""])
+        return res
+
+    def do_handshake(self):
+        return self._answer(self._real.do_handshake)
+
+    def read(self, nbytes, buffer=None):
+        if buffer is None:
+            return self._answer(self._real.read, nbytes)
+        return self._answer(self._real.read, nbytes, buffer, buffer=buffer)
+
+
 class TlsPeer:
     """the remote end: an independent stdlib ssl.SSLObject (server side) over two MemoryBIOs, pumped by the harness"""
 
@@ -1329,6 +1400,31 @@ def canonicalise(labels, obs, delivered, returned):
             obs2.append(o)
     returned2 = b"".join(o[1] for o in obs2 if o[0] == 0)
     return labels2, obs2, _canon_bytes(0, len(delivered)), returned2
+
+
+def _canon_tls_labels(tlabels):
+    """ciphertext differs from run to run: rename the bytes of every read event by position (sizes are what matters)"""
+    out, pos = [], 0
+    for lab in tlabels:
+        if lab[0] == L_DATA:
+            out.append([L_DATA, _canon_bytes(pos, len(lab[1]))])
+            pos += len(lab[1])
+        else:
+            out.append(lab)
+    return out
+
+
+def _tls_results(results):
+    """handshake + attempt results in the vocabulary of Run/C10.v mode 6"""
+    out = [[0, b""]]
+    for r in results:
+        if r[0] == 0:
+            out.append([0, r[1]])
+        elif r[0] in (1, 2, 4):
+            out.append([r[0]])
+        elif r[0] != 5:
+            out.append([3, 9])
+    return out
 
 
 def _endpoint_results(results):
@@ -1432,6 +1528,13 @@ def _mode2_cases(thorough, rng):
         if out[1] != out[2] and not any(o[0] == 2 for o in out[0]):
             tags.append("bytes-lost")
         yield dict(input=[2, 2, labels, scenario], tags=tags, nontrivial=any(lab[0] == L_CANCEL for lab in labels))
+        if scenario[0] in (2, 3) and detect_fixed():
+            tlabels, answers, nfed = run_scenario.last_tls
+            tlabels = _canon_tls_labels(tlabels)
+            tout = [_tls_results(_last_results[0]), nfed]
+            _cache["t" + repr(runner_norm(scenario))] = (tlabels, tout)
+            yield dict(input=[6, tlabels, answers, scenario], tags=["tls-retry-loop-model"] + tags[1:],
+                       nontrivial=any(lab[0] == L_CANCEL for lab in labels))
         if scenario[0] not in (2, 3) and detect_fixed():
             # the composed model Conc/SockEndpoint.v (receive loop + repaired protocol) against the same run
             results = _last_results[0]
